@@ -230,7 +230,18 @@ class ExecResolve(ExecCall):
         if isinstance(res, V):
             for f_ in self.type_facts(st, res, c.returns, fresh=c.fresh_result, snap=snap):
                 st.assume(f_)
-        # ensures
+        # ensures (nested instantiation inside specs is cut at depth 4: fewer facts, never unsound)
+        if spec_call and self.spec_inst_depth >= 4:
+            yield st, res
+            return
+        self.spec_inst_depth += 1
+        try:
+            yield from self._assume_ensures(st, c, env, res, snap, spec_call, req_terms)
+        finally:
+            self.spec_inst_depth -= 1
+
+    def _assume_ensures(self, st, c, env, res, snap, spec_call, req_terms):
+        w = self.w
         env2 = dict(env)
         env2["result"] = res
         for gname, gkind in c.ghosts.items():
@@ -370,6 +381,8 @@ class ExecResolve(ExecCall):
         key = (owner, fname)
         arr = st.field_array(key, self.w.sort_of(kind))
         st.heap[key] = z3.Store(arr, obj.t, v.t)
+        if self.discovery:
+            self.discovered_init.add(key)
         # initialising a fresh object does not change any observer of pre-existing objects: no version bump
 
     def field_default(self, st, qual, f):
